@@ -1039,10 +1039,11 @@ class StructOf(DataType):
             for key, val in value.items():
                 if val is not None:  # goodie: allow None instead of missing key
                     result[key] = self.members[key].validate(val)
-            return ImmutableDict(result)
         except Exception as e:
             errcls = RangeError if isinstance(e, RangeError) else WrongTypeError
             raise errcls('struct element %s is invalid' % key) from e
+        self.check_type(result, True)  # a None must not hide a missing member
+        return ImmutableDict(result)
 
     def check_type(self, value, allow_optional=False):
         try:
